@@ -462,6 +462,40 @@ pub fn boundary_prefix(rng: &mut Rng, plan: &mut Plan) {
     plan.ops.splice(0..0, pre);
 }
 
+/// One batch with more than 65 535 operations (a 16-bit count overflows) over a few keys, tiny
+/// values, unique tags; later operations of the batch overwrite earlier ones, so a reader that sees
+/// only a prefix of the batch sees different values. About 1.5 MiB of write-ahead log in one record.
+/// Returns false (plan unchanged) for key universes with long keys.
+pub fn giant_batch(rng: &mut Rng, plan: &mut Plan, reopen_after: bool) -> bool {
+    if plan.keys.is_empty() || plan.keys.iter().any(|k| k.len() > 64) {
+        return false;
+    }
+    let n = match rng.below(4) {
+        0 => 65_536 + rng.below(4) as usize,
+        1 => 131_072 + 1 + rng.below(500) as usize,
+        _ => 65_537 + rng.below(3000) as usize,
+    };
+    let nk = plan.keys.len().min(12);
+    let base = 1_000_000u32;
+    let items: Vec<(usize, Option<Val>)> = (0..n)
+        .map(|i| {
+            let k = (i * 7 + i / nk) % nk;
+            if i % 97 == 96 {
+                (k, None)
+            } else {
+                (k, Some(Val { tag: base + i as u32, len: 0 }.with_min_len()))
+            }
+        })
+        .collect();
+    let at = rng.usize_below(plan.ops.len() + 1);
+    plan.ops.insert(at, Op::Batch { items });
+    if reopen_after {
+        plan.ops.insert(at + 1, Op::Reopen { idx: 0 });
+        plan.ops.insert(at + 2, Op::CheckAll);
+    }
+    true
+}
+
 #[derive(Clone, Copy, Debug, PartialEq, Eq)]
 pub enum ConcProfile {
     C05,
